@@ -239,6 +239,9 @@ class ExprMixin:
     # ------------------------------------------------------------------ operators
     def ev_BoolOp(self, e, st):
         is_and = isinstance(e.op, ast.And)
+        if self.spec_mode:
+            zs = [self.truth(self.sv(v, st)) for v in e.values]
+            return [(st, Val(BOOL, z3.And(*zs) if is_and else z3.Or(*zs)))]
         results = self.ev(e.values[0], st)
         for nxt_e in e.values[1:]:
             out = []
@@ -554,6 +557,10 @@ class ExprMixin:
                     # the attribute is looked up on the dynamic class
                     return [(st, Val(INT, self.classvar_fn(attr)(self.dtype_fn(base.z))))]
                 return [(st, self.const_val(val))]
+            try:
+                return self.lib.class_attr(cls, attr, st, node)
+            except Unsupported:
+                pass
             return self.lib.dynamic_attr(base, attr, st, node)
         if k in ("set", "list", "dict", "str", "carray", "tuple", "float", "int", "opaque", "dictview", "bytes", "ctxvar", "map", "concdict"):
             return [(st, Val(("boundmethod",), (base, attr), origin=node.value if isinstance(node, ast.Attribute) else None))]
